@@ -72,7 +72,7 @@ def r17_1(ctx):
     p0 = sniff.params[0]
     opens = [c for c in walk_own(sniff.node) if isinstance(c, ast.Call) and norm(c.func) == "open"]
     reads_magic = False
-    from ..core import const_fold, resolve_expr, with_str_consts, inline_callable_aliases, sink_into_branches, desugar_ifexp, inline_bool_temps
+    from ..core import const_fold, resolve_expr, with_str_consts, inline_callable_aliases, sink_into_branches, desugar_ifexp, inline_bool_temps, reaching_def
 
     sn_ = with_str_consts(sniff)
     for r in walk_own(sn_.node):
@@ -106,7 +106,13 @@ def r17_1(ctx):
             if fn not in ("open", "gzip.open", "libcbgzf.BGZFile", "pysam.libcbgzf.BGZFile", "BGZFile", "io.open", "bz2.open", "lzma.open") or not c.args:
                 continue
             path = norm(c.args[0])
-            mode = const_value(c.args[1], "r") if len(c.args) > 1 else next((const_value(k.value) for k in c.keywords if k.arg == "mode"), "r")
+            mode_e = c.args[1] if len(c.args) > 1 else next((k.value for k in c.keywords if k.arg == "mode"), ast.Constant(value="r"))
+            if isinstance(mode_e, ast.Name):
+                d_ = reaching_def(f.node, stmt_of(f, c), mode_e.id)
+                mode_e = d_ if d_ is not None else mode_e
+            mode = const_value(mode_e, None)
+            if path in gaf_params and path in f.params and not isinstance(mode, str):
+                raise AnalysisError("R17.1", f.where(c), f"cannot determine the mode `{norm(mode_e)}` a GAF path is opened with")
             if not isinstance(mode, str) or any(ch in mode for ch in "wax+"):
                 continue  # output files
             if path not in gaf_params or path not in f.params:
@@ -216,6 +222,8 @@ def r17_2(ctx):
                         else:
                             gz_alias.discard(e.node.targets[0].id)
                     node = e.node if e.kind in ("stmt", "test") else None
+                    if e.kind == "loop" and any(isinstance(x, ast.Name) and x.id == var and isinstance(x.ctx, ast.Store) for x in ast.walk(e.node)) and e.node is not loop:
+                        raise AnalysisError("R17.2", f.where(e.node), f"a nested loop rebinds the line variable `{var}`: whether it is text afterwards is not tracked")
                     if e.kind == "exc":
                         # a TypeError raised by a str operation on bytes and handled: the handler decodes
                         ht = norm(e.extra.type) if e.extra.type is not None else ""
